@@ -20,6 +20,7 @@ inductive Expr where
   | index (a i : Expr)
   | call (f : Expr) (args : List Expr)
   | member (e : Expr) (op : String) (field : String)
+  | cast (ty : List String) (e : Expr)             -- `( type-name ) cast-expression`; `ty`: type keywords then `*`s
   deriving Repr, Inhabited
 
 /-- C99 6.5.5–6.5.14: the ten precedence levels of binary operators (higher binds tighter) -/
@@ -38,14 +39,15 @@ def assignOps : List String := ["=", "*=", "/=", "%=", "+=", "-=", "<<=", ">>=",
 def prefixOps : List String := ["++", "--", "&", "*", "+", "-", "~", "!", "sizeof"]
 
 /-! grammar strata: 0 expression (comma) · 1 assignment · 2 conditional · 3+k binary level k ·
-13 cast/unary · 14 postfix · 15 primary -/
+13 cast · 14 unary · 15 postfix · 16 primary -/
 def lvComma := 0
 def lvAssign := 1
 def lvCond := 2
 def lvBin (k : Nat) := 3 + k
-def lvUnary := 13
-def lvPostfix := 14
-def lvPrimary := 15
+def lvCast := 13
+def lvUnary := 14
+def lvPostfix := 15
+def lvPrimary := 16
 
 def Expr.level : Expr → Nat
   | .id _ => lvPrimary
@@ -59,6 +61,7 @@ def Expr.level : Expr → Nat
   | .index .. => lvPostfix
   | .call .. => lvPostfix
   | .member .. => lvPostfix
+  | .cast .. => lvCast
 
 /-- decoration: how many redundant parenthesis pairs to add around each node (consumed in
 pre-order); `[]` = minimal parenthesisation -/
@@ -107,8 +110,8 @@ def renderBody (e : Expr) (d : Deco) : List String × Deco :=
     let (parts, d) := renderList lvAssign es d
     (joinComma parts, d)
   | .pre op e1 =>
-    -- `++`/`--`/`sizeof` take a unary-expression, the others a cast-expression: same stratum here
-    let (t, d) := render lvUnary e1 d
+    -- `++`/`--`/`sizeof` take a unary-expression, the others a cast-expression (C99 6.5.3)
+    let (t, d) := render (if op == "++" || op == "--" || op == "sizeof" then lvUnary else lvCast) e1 d
     (op :: t, d)
   | .post op e1 =>
     let (t, d) := render lvPostfix e1 d
@@ -124,6 +127,10 @@ def renderBody (e : Expr) (d : Deco) : List String × Deco :=
   | .member e1 op fld =>
     let (t, d) := render lvPostfix e1 d
     (t ++ [op, fld], d)
+  | .cast ty e1 =>
+    -- C99 6.5.4: the operand of a cast is a cast-expression: casts nest to the right
+    let (t, d) := render lvCast e1 d
+    (["("] ++ ty ++ [")"] ++ t, d)
 
 def renderList (q : Nat) (es : List Expr) (d : Deco) : List (List String) × Deco :=
   match es with
@@ -150,6 +157,13 @@ def Expr.toVal : Expr → Val
   | .call f args =>
     .node .FuncCall none [f.toVal, if args.isEmpty then .none else .node .ExprList none [.list (toValL args)]]
   | .member e op fld => .node .StructRef none [e.toVal, .str op, .node .ID none [.str fld]]
+  | .cast ty e =>
+    -- `Cast(Typename(None, [], None, PtrDecl* (TypeDecl(None, [], None, IdentifierType(names)))), expr)`
+    let names := ty.filter (· != "*")
+    let stars := (ty.filter (· == "*")).length
+    let base : Val := .node .TypeDecl none [.none, .list [], .none, .node .IdentifierType none [.list (names.map .str)]]
+    let chain := (List.range stars).foldl (fun t _ => Val.node .PtrDecl none [.list [], t]) base
+    .node .Cast none [.node .Typename none [.none, .list [], .none, chain], e.toVal]
 def toValL : List Expr → List Val
   | [] => []
   | e :: es => e.toVal :: toValL es
@@ -160,6 +174,9 @@ end
 def lcg (s : Nat) : Nat := (s * 6364136223846793005 + 1442695040888963407) % 18446744073709551616
 def pick {α} [Inhabited α] (l : List α) (s : Nat) : α := l[(s / 65536) % l.length]!
 
+def castTypes : List (List String) :=
+  [["int"], ["unsigned", "char"], ["void", "*"], ["long", "long"], ["double"], ["char", "*", "*"], ["short"]]
+
 def atoms : List Expr :=
   [.id "a", .id "b", .id "x1", .const "int" "1", .const "int" "0x2F", .const "unsigned long int" "7UL",
    .const "double" "1.5", .const "float" "2.f", .const "char" "'c'", .const "long double" "3e2L"]
@@ -169,7 +186,10 @@ def randExpr : Nat → Nat → Expr × Nat
   | 0, s => (pick atoms s, lcg s)
   | depth+1, s =>
     let s1 := lcg s
-    match (s / 65536) % 13 with
+    match (s / 65536) % 15 with
+    | 13 | 14 =>
+      let (e, s2) := randExpr depth s1
+      (.cast (pick castTypes s2) e, lcg s2)
     | 0 | 1 | 2 | 3 =>
       let (l, s2) := randExpr depth s1
       let (r, s3) := randExpr depth s2
@@ -226,7 +246,7 @@ def leaf : Expr := .id "a"
 def unaryCtors : List (Expr → Expr) :=
   prefixOps.map (fun op => fun e => Expr.pre op e) ++
   [fun e => .post "++" e, fun e => .post "--" e, fun e => .call e [],
-   fun e => .member e "." "m", fun e => .member e "->" "m"]
+   fun e => .member e "." "m", fun e => .member e "->" "m", fun e => .cast ["int"] e, fun e => .cast ["void", "*"] e]
 
 def binaryCtors : List (Expr → Expr → Expr) :=
   binOps.map (fun op => fun l r => Expr.bin op l r) ++
@@ -272,6 +292,7 @@ def relabel (e : Expr) (k : Nat) : Expr × Nat :=
   | .index a i => let (a', k) := relabel a k; let (i', k) := relabel i k; (.index a' i', k)
   | .call f args => let (f', k) := relabel f k; let (a', k) := relabelL args k; (.call f' a', k)
   | .member e op fld => let (e', k) := relabel e k; (.member e' op fld, k)
+  | .cast ty e => let (e', k) := relabel e k; (.cast ty e', k)
 def relabelL (es : List Expr) (k : Nat) : List Expr × Nat :=
   match es with
   | [] => ([], k)
@@ -290,6 +311,7 @@ def Expr.nodes : Expr → Nat
   | .index a i => 1 + a.nodes + i.nodes
   | .call f args => 1 + f.nodes + nodesL args
   | .member e _ _ => 1 + e.nodes
+  | .cast _ e => 1 + e.nodes
 def nodesL : List Expr → Nat
   | [] => 0
   | e :: es => e.nodes + nodesL es
